@@ -1,4 +1,5 @@
 import LayerModel.Lemmas.Median
+import LayerModel.Gen.LockSites
 
 /-!
 # C20 — the price daemon serves the true median of fresh exchange prices
@@ -106,3 +107,25 @@ theorem C20_update_monotone (pt : PT) (price : Nat) (t : Int) :
   · exact ⟨by simp, fun h => absurd rfl h⟩
 
 end Layer.PriceCache
+
+namespace Layer.C20
+
+/-- lock discipline of the price cache at the verified commit: the two exported methods of
+`MarketToExchangePrices` take the mutex (`Lock(); defer Unlock()`) before touching the map, and they are
+the only functions that touch `marketToExchangePrices`; `ExchangeToPrice` / `PriceTimestamp` methods touch
+their fields without a lock of their own and are reachable only through those two methods. -/
+def expectedLockSites : List (List String) := [
+
+  ["daemons/pricefeed/types/price_timestamp.go", "PriceTimestamp.GetValidPrice", "no", "LastUpdateTime Price"],
+  ["daemons/pricefeed/types/price_timestamp.go", "PriceTimestamp.UpdatePrice", "no", "LastUpdateTime Price"],
+  ["daemons/server/types/pricefeed/exchange_to_price.go", "ExchangeToPrice.GetValidPrices", "no", "call:GetValidPrice call:GetValidPrices exchangeToPriceTimestamp"],
+  ["daemons/server/types/pricefeed/exchange_to_price.go", "ExchangeToPrice.UpdatePrices", "no", "LastUpdateTime Price call:UpdatePrice exchangeToPriceTimestamp"],
+  ["daemons/server/types/pricefeed/market_to_exchange_prices.go", "MarketToExchangePrices.GetValidMedianPrices", "yes", "call:GetValidPrices call:Lock call:Unlock marketToExchangePrices"],
+  ["daemons/server/types/pricefeed/market_to_exchange_prices.go", "MarketToExchangePrices.UpdatePrices", "yes", "call:Lock call:Unlock call:UpdatePrices marketToExchangePrices"]
+]
+
+/-- **C20 (lock sites).** Regenerated from the source on every run: a method that reads or writes the
+guarded map outside the lock, a new accessor, or a changed call structure fails here. -/
+theorem C20_lock_sites : Layer.Gen.lockSites = expectedLockSites := rfl
+
+end Layer.C20
